@@ -11,7 +11,7 @@ import re
 import xml.etree.ElementTree as ET
 import z3
 
-from .. import lib, docs, lang, lex, rx, refmodel, hist
+from .. import lib, docs, lang, lex, rx, refmodel, hist, words
 from . import c08
 
 LEVEL = 'model_checking'
@@ -208,7 +208,26 @@ def judge_negative(label, text):
 def variants(name, tier):
     vs = c08.variants(name, tier)
     # attribute forms only a file can carry: namespaced attributes are already in c08.variants (attr:xml:lang=...)
-    return vs
+    return vs + long_words(name)
+
+
+LONG = dict(max_alphabet=8, lengths=(4, 5), per_class=40)
+
+
+def long_words(name):
+    """words of the content model with 4-5 children for the classes whose (reduced) alphabet has <= 8 names: two and more
+    iterations of a repeatable group with different optional members (a non-traditional key with two key-step groups, a
+    metronome with several beat-unit-dots ...) need more children than the C08 shapes have.  Same set in both tiers; own
+    label so that the findings are keyed apart from the 'word:' ones."""
+    m = lib.content_model(name)
+    if m is None:
+        return []
+    A = hist.reduced_alphabet(name)
+    if len(A) > LONG['max_alphabet']:
+        return []
+    ws, complete, _ = words.by_length(m, A, max(LONG['lengths']), 400)
+    ws = sorted([w for w in ws if len(w) in LONG['lengths']], key=lambda w: (-len(w), w))[:LONG['per_class']]
+    return [('longword:' + ','.join(w), docs.with_word(name, w)) for w in ws]
 
 
 def run_unit(name, tier, seed):
@@ -260,11 +279,11 @@ def replay(c):
 def describe():
     return dict(
         rule='per element class as document root: (positive) the C08 shapes written as XML text by vf/docs.py, never touching the library, incl. '
-             'xml:lang / xml:space / xlink:* attribute forms; (negative) the minimal document with one edit: undeclared child, undeclared attribute, '
+             'xml:lang / xml:space / xlink:* attribute forms, plus words of 4-5 children for the classes with <= 8 child names; (negative) the minimal document with one edit: undeclared child, undeclared attribute, '
              'character data in an element without text, tail text, z3 models of L(float())\\L(xs:decimal) and L(int())\\L(xs:integer) as text and '
              'attribute values, a comment; non-trivial = documents parsed',
         functions=['parser/parser.py:parse_musicxml', '_parse_node', '_et_xml_to_music_xml', 'xmlelement/xmlelement.py:XMLElement._set_attributes', 'XMLElement.add_child'],
-        bounds=dict(c08.LIMITS, mutations='one per document', outside='whole real-world scores (the repository\'s own .xml files are replayed by C08/C02 routes only indirectly); combinations of edits'),
+        bounds=dict(c08.LIMITS, long_words='classes with <= 8 child names: up to 40 words of 4-5 children each', mutations='one per document', outside='whole real-world scores (the repository\'s own .xml files are replayed by C08/C02 routes only indirectly); combinations of edits'),
         assumptions=['float()/int() grammar is modelled as a regular expression and every model is validated against the builtin',
                      'numerically equal re-spelling counts as preserved only when the input spelling is valid xs:decimal',
                      'comments and processing instructions are not elements, attributes or text values: ignoring them is not a loss'],
